@@ -96,7 +96,7 @@ func startTagLines(src, tag string, occurrence int) (int, int) {
 }
 
 func runC17(res *Result, tier string, seed int64, replay string) {
-	res.Rule = "(1) EXHAUSTIVE matrix: every body component in a legal context × every attribute name from the union of all known names + invented ones (bogus, data-x, aria-y, class, css-class, mj-class, empty-looking names): error reported ⇔ the Spec (JSON table + always-accepted names) rejects, exactly one detail for the offending (tag, attribute), nothing else; HTML equal to the HTML of the same document without the attribute when the attribute is invalid. (2) seeded grammar documents with 1–4 invalid attributes injected at random elements, multi-line start tags, three layouts (one element per line, the whole document on one line, the first elements on the line of the root), void HTML tags inside mj-text written over several lines, documents preceded by comments and blank lines: every reported line must lie within the lines of that element's start tag in the ORIGINAL input; details = injected set. (3) line lookup: real lineLookup (verif export) vs 1 + count of newlines, offsets queried in random order. Non-trivial = cell or document with an offending attribute; distinct by cell / source"
+	res.Rule = "(1) EXHAUSTIVE matrix: every body component in a legal context × every attribute name from the union of all known names + invented ones (bogus, data-x, aria-y, class, css-class, mj-class, empty-looking names): error reported ⇔ the Spec (JSON table + always-accepted names) rejects, exactly one detail for the offending (tag, attribute), nothing else; HTML equal to the HTML of the same document without the attribute when the attribute is invalid. (2) seeded grammar documents with 1–4 invalid attributes injected at random elements, multi-line start tags, three layouts (one element per line, the whole document on one line, the first elements on the line of the root), void HTML tags inside mj-text written over several lines, documents preceded by comments and blank lines, also mixed with material that is kept (XML declaration, doctype, byte-order mark) in every order: every reported line must lie within the lines of that element's start tag in the ORIGINAL input; details = injected set. (3) line lookup: real lineLookup (verif export) vs 1 + count of newlines, offsets queried in random order. Non-trivial = cell or document with an offending attribute; distinct by cell / source"
 	// ---- (1) matrix
 	names := map[string]bool{}
 	for _, t := range bodyTags {
@@ -238,7 +238,12 @@ func runC17(res *Result, tier string, seed int64, replay string) {
 				body = strings.Replace(body, "<br/>", "<br"+nl+"/>", -1)
 				body = strings.Replace(body, "</mj-text>", `<img src="i.png"`+nl+`   alt="a"`+nl+`/><hr`+nl+nl+`/></mj-text>`, 1+r.Intn(2))
 			}
-			pre := r.Pick([]string{"", "", "<!-- leading comment -->\n", "\n\n\n", "<!-- a -->\n<!-- b\n c -->\n\n", "  \n<!-- x -->", "<?xml version=\"1.0\"?>\n"})
+			pre := r.Pick([]string{"", "", "<!-- leading comment -->\n", "\n\n\n", "<!-- a -->\n<!-- b\n c -->\n\n", "  \n<!-- x -->", "<?xml version=\"1.0\"?>\n",
+				// material that stays (XML declaration, doctype, byte-order mark) in front of, between and behind material that is
+				// stripped (comments over several lines, blank lines): the stripped lines are not a prefix of the input
+				"<?xml version=\"1.0\"?>\n<!-- a\n b\n c -->\n", "<?xml version=\"1.0\" encoding=\"UTF-8\"?>\n\n<!-- two\nlines -->\n\n<!-- x -->\n",
+				"<!DOCTYPE mjml>\n<!-- a\n b -->\n", "<!-- first\n -->\n<?xml version=\"1.0\"?>\n<!-- second\n\n -->\n", "\ufeff<!-- bom\n then a comment -->\n",
+				"<?xml version=\"1.0\"?><!-- same line\n next line --><!-- c -->\n\n"})
 			src = pre + body
 			// expected details with start-tag line ranges, in document order of elements
 			d.Walk(func(x *Node) {
